@@ -254,6 +254,13 @@ class _AnnotationStringParser(ast.NodeTransformer):
         elif isinstance(value, ast.Attribute) and value.attr == 'Literal':
             # typing.Literal[...] expression; don't unstring the arguments.
             slice = node.slice
+        elif ((isinstance(value, ast.Name) and value.id == 'Annotated') or 
+              (isinstance(value, ast.Attribute) and value.attr == 'Annotated')) and \
+                isinstance(node.slice, ast.Tuple) and node.slice.elts:
+            # Annotated[T, metadata...] expression; only the type is an annotation,
+            # a string in the metadata is a string.
+            first = self.visit(node.slice.elts[0])
+            slice = ast.copy_location(ast.Tuple([first, *node.slice.elts[1:]], node.slice.ctx), node.slice)
         else:
             # Other subscript; unstring the slice.
             slice = self.visit(node.slice)
